@@ -16,7 +16,8 @@ Inductive meth :=
 | MClearLL | MInsert | MRemove | MRemoveAll
 | MAdd | MAddList | MGet | MGetList | MClear | MSetDefault | MSetItem | MGetItem | MDelItem
 | MPop | MPopAll | MPopItem | MPopLast
-| MUpdate | MUpdateExtend | MIOr.
+| MUpdate | MUpdateExtend | MIOr
+| MIterItems | MIterKeys | MIterValues | MReversed | MKeys | MValues | MItems | MIter.
 
 Inductive pv :=
 | VTok (n : nat) | VMissing | VBool (b : bool) | VCell (a : nat)
@@ -24,7 +25,8 @@ Inductive pv :=
 (* arguments of update / update_extend: E as an iterable of pairs, a plain mapping or the object itself
    (VArg), E as ANOTHER OrderedMultiDict given by its state (VOtherObj), the keyword mapping F (VKw);
    an iterator of pairs; a local set; the object itself as a return value *)
-| VArg (a : arg) | VOtherObj (q : pomd) | VKw (m : pairs) | VPairs (l : pairs) | VSet (l : list nat) | VSelfObj.
+| VArg (a : arg) | VOtherObj (q : pomd) | VKw (m : pairs) | VPairs (l : pairs) | VSet (l : list nat) | VSelfObj
+| VNat (n : nat) | VDict (d : list (nat * nat)).      (* an int; a local dict of ints (lengths in __reversed__) *)
 
 Inductive ex :=
 | EVar (x : nat) | ENone | EMissing | ERoot
@@ -57,7 +59,12 @@ Inductive ex :=
 | EArgItemsMulti (e : ex)                      (* e.iteritems(multi=True) *)
 | EArgItems (e : ex)                           (* iter(e.items()) (e is self) *)
 | EGenKV (e : ex)                              (* ((k, e[k]) for k in e.keys()) *)
-| ESetNew | EInSet (k s : ex).                 (* set() / k in s *)
+| ESetNew | EInSet (k s : ex)                  (* set() / k in s *)
+| ETrue | EFalse
+| ENotIs (a b : ex)                            (* a is not b, on cells *)
+| ELen (e : ex) | EEqNat (a b : ex)            (* len(e) / a == b on ints *)
+| EDictNew                                     (* {} *)
+| EYieldedToks | EYieldedPairs.                (* what the generator has yielded (its value as a list) *)
 
 Inductive stmt :=
 | SPass | SSeq (a b : stmt) | SAssign (x : nat) (e : ex) | SExpr (e : ex)
@@ -70,11 +77,16 @@ Inductive stmt :=
 | SIf (c : ex) (a b : stmt) | SWhile (c : ex) (b : stmt) | SFor (x : nat) (e : ex) (b : stmt)
 | STryKeyError (b h : stmt) | SReturn (e : ex) | SRaiseKeyError
 | SSetAdd (x : nat) (k : ex)                                    (* x.add(k) for a local set x *)
-| SFor2 (x y : nat) (e : ex) (b : stmt).                        (* for x, y in e: b *)
+| SFor2 (x y : nat) (e : ex) (b : stmt)                         (* for x, y in e: b *)
+| SYield (e : ex)                                               (* yield e (generators are run to completion) *)
+| SDictSetdefault (d tmp : nat) (k : ex) (v : nat)              (* tmp = d.setdefault(k, v) for a local dict d *)
+| SDictIncr (d : nat) (k : ex).                                 (* d[k] += 1 *)
 
 Definition type_error : exn := OtherExn 7.
 
 Definition env := list (nat * pv).
+Definition acc_toks : nat := 998.       (* environment slots collecting what a generator yields *)
+Definition acc_pairs : nat := 999.
 Fixpoint env_get (e : env) (x : nat) : res pv :=
   match e with
   | [] => Raise (OtherExn 8)                                     (* NameError *)
@@ -163,6 +175,7 @@ Section Interp.
     | ENil => (Ok (VToks []), s)
     | EListOf a =>
         match eval en a s with
+        | (Ok (VPairs l), s1) => (Ok (VPairs l), s1)
         | (Ok v, s1) => match list_of s1 v with Ok l => (Ok (VToks l), s1) | Raise x => (Raise x, s1) end
         | r => r
         end
@@ -330,6 +343,38 @@ Section Interp.
         | (Ok _, s1) => raise type_error s1
         | r => r
         end
+    | ETrue => (Ok (VBool true), s)
+    | EFalse => (Ok (VBool false), s)
+    | ENotIs a b =>
+        match eval en a s with
+        | (Ok (VCell x), s1) =>
+            match eval en b s1 with
+            | (Ok (VCell y), s2) => (Ok (VBool (negb (Nat.eqb x y))), s2)
+            | (Ok _, s2) => raise type_error s2
+            | r => r
+            end
+        | (Ok _, s1) => raise type_error s1
+        | r => r
+        end
+    | ELen a =>
+        match eval en a s with
+        | (Ok v, s1) => match list_of s1 v with Ok l => (Ok (VNat (length l)), s1) | Raise x => (Raise x, s1) end
+        | r => r
+        end
+    | EEqNat a b =>
+        match eval en a s with
+        | (Ok (VNat x), s1) =>
+            match eval en b s1 with
+            | (Ok (VNat y), s2) => (Ok (VBool (Nat.eqb x y)), s2)
+            | (Ok _, s2) => raise type_error s2
+            | r => r
+            end
+        | (Ok _, s1) => raise type_error s1
+        | r => r
+        end
+    | EDictNew => (Ok (VDict []), s)
+    | EYieldedToks => (match env_get en acc_toks with Ok v => Ok v | Raise _ => Ok (VToks []) end, s)
+    | EYieldedPairs => (match env_get en acc_pairs with Ok v => Ok v | Raise _ => Ok (VPairs []) end, s)
     | ESetNew => (Ok (VSet []), s)
     | EInSet k st =>
         tok1 k (fun kk s1 =>
@@ -578,6 +623,53 @@ Section Interp.
         | (Ok (VTok kk), s1) =>
             match env_get en x with
             | Ok (VSet l) => (ONormal, env_set en x (VSet (kk :: l)), s1)
+            | Ok _ => (ORaise type_error, en, s1)
+            | Raise x0 => (ORaise x0, en, s1)
+            end
+        | (Ok _, s1) => (ORaise type_error, en, s1)
+        | (Raise x0, s1) => (ORaise x0, en, s1)
+        end
+    | SYield e =>
+        match eval en e s with
+        | (Ok (VTok t), s1) =>
+            match env_get en acc_toks with
+            | Ok (VToks l) => (ONormal, env_set en acc_toks (VToks (l ++ [t])), s1)
+            | Ok _ => (ORaise type_error, en, s1)
+            | Raise _ => (ONormal, env_set en acc_toks (VToks [t]), s1)
+            end
+        | (Ok (VItem a b), s1) =>
+            match env_get en acc_pairs with
+            | Ok (VPairs l) => (ONormal, env_set en acc_pairs (VPairs (l ++ [(a, b)])), s1)
+            | Ok _ => (ORaise type_error, en, s1)
+            | Raise _ => (ONormal, env_set en acc_pairs (VPairs [(a, b)]), s1)
+            end
+        | (Ok _, s1) => (ORaise type_error, en, s1)
+        | (Raise x0, s1) => (ORaise x0, en, s1)
+        end
+    | SDictSetdefault d tmp k v =>
+        match eval en k s with
+        | (Ok (VTok kk), s1) =>
+            match env_get en d with
+            | Ok (VDict l) =>
+                match d_get l kk with
+                | Some n => (ONormal, env_set en tmp (VNat n), s1)
+                | None => (ONormal, env_set (env_set en d (VDict (d_set l kk v))) tmp (VNat v), s1)
+                end
+            | Ok _ => (ORaise type_error, en, s1)
+            | Raise x0 => (ORaise x0, en, s1)
+            end
+        | (Ok _, s1) => (ORaise type_error, en, s1)
+        | (Raise x0, s1) => (ORaise x0, en, s1)
+        end
+    | SDictIncr d k =>
+        match eval en k s with
+        | (Ok (VTok kk), s1) =>
+            match env_get en d with
+            | Ok (VDict l) =>
+                match d_get l kk with
+                | Some n => (ONormal, env_set en d (VDict (d_set l kk (S n))), s1)
+                | None => (ORaise KeyError, en, s1)
+                end
             | Ok _ => (ORaise type_error, en, s1)
             | Raise x0 => (ORaise x0, en, s1)
             end
